@@ -71,10 +71,20 @@ type Host struct {
 	genesisState   []byte
 	genesisHeight  int64
 	genesisTime    time.Time
+	// multi-token runs: the exchange-rate feed of the harness's "oracle" module service (pair -> rate), changed by
+	// "rate" ops; state of a module outside the one under test, so it is kept by the harness
+	rates     map[string]string
+	rateAsked int
 }
 
-func newApp(db dbm.DB) *simapp.SimApp {
-	return simapp.NewSimApp(log.NewNopLogger(), db, nil, true, map[int64]bool{}, simapp.DefaultNodeHome, 0, simapp.MakeEncodingConfig())
+func newApp(db dbm.DB, multiToken ...bool) *simapp.SimApp {
+	app := simapp.NewSimApp(log.NewNopLogger(), db, nil, true, map[int64]bool{}, simapp.DefaultNodeHome, 0, simapp.MakeEncodingConfig())
+	if len(multiToken) > 0 && multiToken[0] {
+		if !rewireTokenKeeper(app) {
+			panic("INTERNAL: cannot re-wire the token keeper of the sample app (multi-token run)")
+		}
+	}
+	return app
 }
 
 func (h *Host) registerForeign() {
@@ -93,11 +103,15 @@ func (h *Host) registerForeign() {
 	// two sloppy modules that registered only one of the two callbacks: the keeper must refuse contexts for them
 	must(k.RegisterResponseCallback("halfresp", func(ctx sdk.Context, id tmbytes.HexBytes, outputs []string, err error) {}))
 	must(k.RegisterStateCallback("halfstate", func(ctx sdk.Context, id tmbytes.HexBytes, cause string) {}))
-	if h.cfg.ModuleService {
+	if h.cfg.ModuleService || h.cfg.MultiToken {
 		must(k.RegisterModuleService(types.RegisterModuleName, &types.ModuleService{
 			ServiceName: types.OraclePriceServiceName,
 			Provider:    types.OraclePriceServiceProvider,
 			ReuquestService: func(ctx sdk.Context, input string) (string, string) {
+				if h.cfg.MultiToken {
+					h.rateAsked++
+					return rateReply(h.rates, input)
+				}
 				return `{"code":200,"message":""}`, `{"header":{},"body":{"rate":"1.0"}}`
 			},
 		}))
@@ -131,8 +145,11 @@ func serviceParams(cfg *Config) types.Params {
 
 // NewHost creates the chain from the run configuration.
 func NewHost(cfg *Config) *Host {
-	h := &Host{cfg: cfg, db: dbm.NewMemDB(), chain: chainID}
-	h.app = newApp(h.db)
+	h := &Host{cfg: cfg, db: dbm.NewMemDB(), chain: chainID, rates: map[string]string{}}
+	for k, v := range cfg.Rates {
+		h.rates[k] = v
+	}
+	h.app = newApp(h.db, cfg.MultiToken)
 	h.registerForeign()
 
 	gs := simapp.NewDefaultGenesisState()
@@ -162,7 +179,7 @@ func NewHost(cfg *Config) *Host {
 	gs[banktypes.ModuleName] = cdc.MustMarshalJSON(banktypes.NewGenesisState(banktypes.DefaultGenesisState().Params, bals, total, []banktypes.Metadata{}))
 
 	sg := types.GenesisState{Params: serviceParams(cfg)}
-	if cfg.ModuleService {
+	if cfg.ModuleService || cfg.MultiToken {
 		sg.Definitions = append(sg.Definitions, types.GenOraclePriceSvcDefinition())
 		sg.Bindings = append(sg.Bindings, types.GenOraclePriceSvcBinding("stake"))
 	}
@@ -242,7 +259,7 @@ func (h *Host) Commit() []byte {
 
 // Restart: the process dies, only what Commit made durable survives.
 func (h *Host) Restart() {
-	h.app = newApp(h.db)
+	h.app = newApp(h.db, h.cfg.MultiToken)
 	h.callbacks = nil
 	h.registerForeign()
 	h.inBlock = false
